@@ -307,6 +307,46 @@ def opDV (args obs : List String) : P String := do
         else pure (functional (showRes t res) obs)
   | _ => throw "DV: arity"
 
+/-- `CV <route> <srcmode> <shape> <fsrc> <fdst> <r> <o> [codes] | s n f [codes'] shape ov un srcUnchanged`
+one conversion by the named route; destination modes `(r, o)`. -/
+def opCV (args obs : List String) : P String := do
+  match args with
+  | [_route, _srcmode, shape, ss, ns, fs, sd, nd, fd, r, o, cs] =>
+    let src ← pFmt ss ns fs
+    let dst ← pFmt sd nd fd
+    let r ← pRounding r
+    let o ← pOverflow o
+    let cs ← pList pInt cs
+    let out := cs.map (convertM src dst r o)
+    let fl := cs.map (convertFlags src dst r)
+    pure (functional [showSigned dst.signed, toString dst.nword, toString dst.nfrac, showList toString out, shape,
+                      showBool (fl.any (·.1)), showBool (fl.any (·.2)), "1"] obs)
+  | _ => throw "CV: arity"
+
+def pSteps : List String → P (List (Fmt × Rounding × Overflow))
+  | [] => pure []
+  | _route :: s :: n :: f :: r :: o :: rest => do
+      let d ← pFmt s n f
+      let r ← pRounding r
+      let o ← pOverflow o
+      let tl ← pSteps rest
+      pure ((d, r, o) :: tl)
+  | _ => throw "CH: steps"
+
+/-- `CH <fsrc> [codes] (<route> <fdst> <r> <o>)* | s n f [codes']` — a chain of conversions. -/
+def opCH (args obs : List String) : P String := do
+  match args with
+  | ss :: ns :: fs :: cs :: steps =>
+    let src ← pFmt ss ns fs
+    let cs ← pList pInt cs
+    let steps ← pSteps steps
+    let res := cs.map (fun c => convertChain src c steps)
+    let d := match res with
+      | [] => src
+      | (d, _) :: _ => d
+    pure (functional [showSigned d.signed, toString d.nword, toString d.nfrac, showList toString (res.map (·.2))] obs)
+  | _ => throw "CH: arity"
+
 /-- `UN <op=neg|pos|abs> <fx> [codes] | s n f [codes]` — unary operators build a default-config object. -/
 def opUN (args obs : List String) : P String := do
   match args with
@@ -336,6 +376,8 @@ def dispatch (op : String) (args obs : List String) : P String :=
   | "UN" => opUN args obs
   | "AC" => opAC args obs
   | "DV" => opDV args obs
+  | "CV" => opCV args obs
+  | "CH" => opCH args obs
   | _ => throw s!"unknown op {op}"
 
 end Fxp.Ops
